@@ -280,7 +280,13 @@ class Interp:
             self._stack.pop()
 
     def _seed_facts(self, st):
+        items = []
         for name, a in self.assumptions.items():
+            if isinstance(a, list):
+                items.extend((name, x) for x in a)
+            else:
+                items.append((name, a))
+        for name, a in items:
             k = Form.sym(name).key()
             if a == "none":
                 st.facts.none[k] = True
